@@ -169,9 +169,10 @@ package sm
 //@   loop 1
 //@     # C11 "a success CEA advertises at least the dictionary applications it shares with the peer": in every round of the
 //@     # loop over the supported applications an application-id AVP is added to the answer - a Vendor-Specific-Application-Id
-//@     # group for a vendor application, else an AVP carrying the application's id (no application is skipped)
+//@     # group for a vendor application, else an AVP carrying the application's id (no application is skipped); the round's
+//@     # application is named through the loop counter (rangeindex is one behind it), not through the loop variable
 //@     eachround (*diam.Message).NewAVP: [C11] every_supported_application_is_advertised: ARG0 == a &&
-//@               ((typeis(ARG1, int) && ARG1.(int) == 260 && typeis(ARG4, *diam.GroupedAVP)) || (typeis(ARG1, uint32) && typeis(ARG4, datatype.Unsigned32) && uint32(ARG4.(datatype.Unsigned32)) == app.ID))
+//@               ((typeis(ARG1, int) && ARG1.(int) == 260 && typeis(ARG4, *diam.GroupedAVP)) || (typeis(ARG1, uint32) && typeis(ARG4, datatype.Unsigned32) && uint32(ARG4.(datatype.Unsigned32)) == sm.supportedApps[rangeindex+1].ID))
 //@     invariant 0 - 1 <= rangeindex && rangeindex < len(sm.supportedApps)
 //@     invariant apps_listed: forall i int :: 0 <= i && i < len(sm.supportedApps) ==> sm.supportedApps[i] != nil
 //@     invariant own1: a != nil && fresh(a) && a.Header != nil && fresh(a.Header)
@@ -322,22 +323,22 @@ package sm
 //@     invariant built: fresh(m) && fresh(m.Header) && iscer(m, cli.Handler.cfg) && m.dictionary == cli.Dict && fresh(m.AVP)
 //@   end
 //@   loop 1
-//@     eachround (*diam.Message).AddAVP: [C12] every_entry_is_added: ARG0 == m && ARG1 == a
+//@     eachround (*diam.Message).AddAVP: [C12] every_entry_is_added: ARG0 == m && ARG1 == cli.SupportedVendorID[rangeindex+1]
 //@     invariant 0 - 1 <= rangeindex && rangeindex < len(cli.SupportedVendorID)
 //@     invariant built: fresh(m) && fresh(m.Header) && iscer(m, cli.Handler.cfg) && m.dictionary == cli.Dict && fresh(m.AVP)
 //@   end
 //@   loop 2
-//@     eachround (*diam.Message).AddAVP: [C12] every_entry_is_added: ARG0 == m && ARG1 == a
+//@     eachround (*diam.Message).AddAVP: [C12] every_entry_is_added: ARG0 == m && ARG1 == cli.AuthApplicationID[rangeindex+1]
 //@     invariant 0 - 1 <= rangeindex && rangeindex < len(cli.AuthApplicationID)
 //@     invariant built: fresh(m) && fresh(m.Header) && iscer(m, cli.Handler.cfg) && m.dictionary == cli.Dict && fresh(m.AVP)
 //@   end
 //@   loop 3
-//@     eachround (*diam.Message).AddAVP: [C12] every_entry_is_added: ARG0 == m && ARG1 == a
+//@     eachround (*diam.Message).AddAVP: [C12] every_entry_is_added: ARG0 == m && ARG1 == cli.AcctApplicationID[rangeindex+1]
 //@     invariant 0 - 1 <= rangeindex && rangeindex < len(cli.AcctApplicationID)
 //@     invariant built: fresh(m) && fresh(m.Header) && iscer(m, cli.Handler.cfg) && m.dictionary == cli.Dict && fresh(m.AVP)
 //@   end
 //@   loop 4
-//@     eachround (*diam.Message).AddAVP: [C12] every_entry_is_added: ARG0 == m && ARG1 == a
+//@     eachround (*diam.Message).AddAVP: [C12] every_entry_is_added: ARG0 == m && ARG1 == cli.VendorSpecificApplicationID[rangeindex+1]
 //@     invariant 0 - 1 <= rangeindex && rangeindex < len(cli.VendorSpecificApplicationID)
 //@     invariant built: fresh(m) && fresh(m.Header) && iscer(m, cli.Handler.cfg) && m.dictionary == cli.Dict && fresh(m.AVP)
 //@   end
